@@ -1,5 +1,14 @@
 use itertools::Itertools;
 
+/// Sums floating-point values in ascending order of value. Floating-point addition is not
+/// associative; adding the values in a canonical order makes the sum independent of the order
+/// in which they were produced, e.g. by iterating over a `HashMap` or a `HashSet`.
+pub fn sum_sorted<I: Iterator<Item = f64>>(values: I) -> f64 {
+    let mut values: Vec<f64> = values.collect();
+    values.sort_by(|a, b| a.total_cmp(b));
+    values.into_iter().sum()
+}
+
 pub struct ChunkByCount<I: Iterator> {
     #[allow(clippy::type_complexity)]
     inner: itertools::structs::ChunkBy<I::Item, I, fn(&I::Item) -> I::Item>,
